@@ -1909,6 +1909,8 @@ class _FuncEval:
     def _deep(self, callee: FuncInfo) -> bool:
         if not self.ev.deep_inline_in or callee.qual in self.ev.deep_protect:
             return False
+        if callee.lru_cached:
+            return False  # a memoised function is a unit of its own (with its own purity premises, C17), never a fragment of a caller
         root = self
         while getattr(root, "parent_eval", None) is not None:
             root = root.parent_eval
@@ -1991,7 +1993,7 @@ class _FuncEval:
                         if ("const", True) not in ds:
                             st.cond = st.cond + ((("or", ds), True),)
                 return val
-        if (private_helper and sm.loops and (getattr(self, "_value_call", None) is n or getattr(self, "_stmt_call", None) is n)
+        if (private_helper and sm.loops and whole_rhs
                 and not sm.unsupported and not sm.trys and self._deep(f)):
             # a private helper that contains loops and ends in one trailing return: its loops, effects, calls and early exits are
             # spliced into the caller (a loop moved out into a helper is still the caller's loop)
